@@ -774,4 +774,29 @@ Proof.
   apply (ftrace_forallb cci TI); [apply c18_drain_sends_ok_step | apply TI_vstep | eapply TI_vsock_new; eauto].
 Qed.
 
+
+(* data buffered => the table is not empty *)
+Theorem c18_buffered_segmented_ok_step : forall cfg (s : vsock) o,
+  TI s -> c18_buffered_segmented_ok cfg (fstep_of cci s o) = true.
+Proof.
+  intros cfg s o HT. pose proof (c18_drain_sends_ok_step cfg s o HT) as D.
+  unfold c18_buffered_segmented_ok, c18_drain_sends_ok in *.
+  destruct (c18_completed _); [|reflexivity].
+  destruct (negb _); [|reflexivity].
+  destruct (0 <? f_last_remote_window _); [|reflexivity]. cbn [andb] in *.
+  destruct (0 <? f_tx_len _) eqn:Tx; [|reflexivity].
+  destruct (f_seg_len_bytes _ <? f_tx_len _) eqn:Lt; [exact D|].
+  rewrite fstep_of_post in *. pose proof (TI_vstep s o HT) as [_ (B & _)].
+  cbn [fp_of_vsock f_segs f_tx_len f_seg_len_bytes] in *. rewrite nonempty_map.
+  destruct (ss_segs (v_segs (vstep_state cci s o))); [|reflexivity].
+  cbn [sum_sizes] in B. lia.
+Qed.
+
+Theorem c18_buffered_segmented_ok_trace : forall cfg mk c (s0 : vsock) ops,
+  vsock_new cci mk c = Some s0 -> forallb (c18_buffered_segmented_ok cfg) (ftrace cci s0 ops) = true.
+Proof.
+  intros cfg mk c s0 ops H.
+  apply (ftrace_forallb cci TI); [apply c18_buffered_segmented_ok_step | apply TI_vstep | eapply TI_vsock_new; eauto].
+Qed.
+
 End WithCC.
